@@ -33,6 +33,8 @@ pub trait Monitor {
 	fn on_obs(&mut self, w: &World, o: &Obs, v: &mut Verdicts);
 	/// called at quiescent points (after a successful settle)
 	fn on_settled(&mut self, _w: &World, _v: &mut Verdicts) {}
+	/// called after every block of an on-chain resolution (not a quiescent point)
+	fn on_midchain(&mut self, _w: &World, _v: &mut Verdicts) {}
 	/// called right before the last quiescent point of the run is judged
 	fn before_final_settle(&mut self) {}
 	/// called once at the end of the run
